@@ -18,6 +18,7 @@ import RTV.Gen.CharTables
   url.extract <cps>                          -> start:len:textcps:data;…  | err:Other   (BaseURLExtractor.extract)
   phone.extract <cps>                        -> start:len:textcps:data;…   (BasePhoneNumberExtractor.extract, English)
   spec.url <cps>                             -> typecps:start:end:textcps:valuecps;…   (recognize_url)
+  spec.seq <hashtag|mention|email|url|urlzh> <cps>  -> typecps:textcps:valuecps;…
   spec.ip <en|zh> <cps>                      -> typecps:textcps:valuecps;…   (recognize_ip_address, runner fields)
   spec.guid <cps>                            -> typecps:textcps:valuecps:scorecps;…
   spec.bool <cps>                            -> typecps:textcps:0|1;…  | err:Other
@@ -111,6 +112,18 @@ def hSpecUrl : Handler
       s!"{showCps t}:{a}:{b}:{showCps x}:{showCps v}")
   | _ => "bad-op"
 
+def hSpecSeq : Handler
+  | [w, s] =>
+    let q := parseCps s
+    let rs := match w with
+      | "hashtag" => simpleModelRun genSeqEnv RTV.Gen.hashtagRegex (ofString "hashtag") q
+      | "mention" => simpleModelRun genSeqEnv RTV.Gen.mentionRegex (ofString "mention") q
+      | "email" => simpleModelRun genSeqEnv RTV.Gen.emailRegex (ofString "email") q
+      | "urlzh" => urlSpecRun genSeqEnv true q
+      | _ => urlSpecRun genSeqEnv false q
+    ";".intercalate (rs.map fun (t, x, v) => s!"{showCps t}:{showCps x}:{showCps v}")
+  | _ => "bad-op"
+
 def hSpecIp : Handler
   | [w, s] => ";".intercalate ((ipModelRun genSeqEnv (w == "zh") (parseCps s)).map fun (t, x, v) =>
       s!"{showCps t}:{showCps x}:{showCps v}")
@@ -142,6 +155,7 @@ def dispatchRe (op : String) (args : List String) : Option String :=
   | "url.extract" => some (hUrlExtract args)
   | "spec.url" => some (hSpecUrl args)
   | "phone.extract" => some (hPhoneExtract args)
+  | "spec.seq" => some (hSpecSeq args)
   | "spec.ip" => some (hSpecIp args)
   | "spec.guid" => some (hSpecGuid args)
   | "spec.bool" => some (hSpecBool args)
